@@ -97,10 +97,9 @@ def _bound_denominators(ctx, cls):
             nden += 1
             core = den
             floor = None
-            if core[0] == "call" and core[1][0] == "attr" and core[1][2] == "clip":
-                kw = dict(core[3])
-                floor = kw.get("min", kw.get("lower", core[2][0] if core[2] else None))
-                core = core[1][1]
+            if core[0] == "call" and core[1] == ("global", "numpy.clip") and len(core[2]) == 3:  # x.clip(min=c) / numpy.clip(x, c, None): one form
+                floor = core[2][1] if core[2][1] != ("const", None) else None
+                core = core[2][0]
             elif core[0] == "call" and core[1][0] == "global" and core[1][1].endswith("maximum") and len(core[2]) == 2:
                 c_ = [a for a in core[2] if a[0] == "const"]
                 floor = c_[0] if c_ else None
@@ -339,11 +338,10 @@ def check(ctx):
             t0 = t0[1][1]
         if t0[0] == "call" and t0[1][0] == "attr" and t0[1][2] == "mean" and dict(t0[3]).get("axis") == ("const", 1):
             return bounded(t0[1][1])
-        if t0[0] == "call" and t0[1][0] == "attr" and t0[1][2] == "clip":
-            kw = dict(t0[3])
+        if t0[0] == "call" and t0[1] == ("global", "numpy.clip") and len(t0[2]) == 3:
             for kind in ("y", "z"):
                 bc = bounds_call(kind)
-                if kw.get("min") == ("sub", bc, ("const", 0)) and kw.get("max") == ("sub", bc, ("const", 1)):
+                if t0[2][1] == ("sub", bc, ("const", 0)) and t0[2][2] == ("sub", bc, ("const", 1)):
                     return kind
             return "clip-other"
         return None
